@@ -282,7 +282,7 @@ def _run_one(ctx, case):
 
 def run(ctx) -> None:
     text = st.text(alphabet="abcdefghijklmnopqrstuvwxyzABCDEFGHIJKLMNOPQRSTUVWXYZ0123456789+&=% @._-!#$*/?:;,~", min_size=1, max_size=40)
-    fault = st.sampled_from(["ok", "timeout", "timeout", "http500", "http404", "http502", "http503", "http503", "http504", "http429", "http301", "connect", "api:3101", "api:9999", "api:1"])
+    fault = st.sampled_from(["ok", "timeout", "timeout", "http500", "http404", "http502", "http503", "http503", "http504", "http429", "http301", "http502j", "http503k", "http401j", "http500k", "connect", "api:3101", "api:9999", "api:1"])
     faults = st.fixed_dictionaries({}, optional={"/v1/user/login/id/get": st.lists(fault, max_size=4), "/v1/user/login": st.lists(fault, max_size=4),
                                                  "/v1/iot/secure/getToken": st.lists(fault, max_size=4)})
     entry = st.one_of(st.just("match"), st.integers(0, 6))
@@ -305,12 +305,12 @@ def run(ctx) -> None:
                                 "latency": [0.05, 0.45, 1.3][q % 3]}
                         ctx.check(case, lambda c: _run_one(ctx, c))
     ctx.sweep("cloud flavour x region x concurrent requests x token list shapes", q, True)
-    # every sequence of up to 4 faults from {timeout, 503, 502, 500, ok} on each endpoint: attempts never exceed the budget
+    # every sequence of up to 4 faults from {timeout, 503, 502 with a gateway JSON body, 500 with a success-shaped JSON body, ok} on each endpoint: attempts never exceed the budget
     import itertools
     f = 0
     for path in ("/v1/user/login/id/get", "/v1/user/login", "/v1/iot/secure/getToken"):
         for n in (1, 2, 3, 4):
-            for seq in itertools.product(["timeout", "http503", "http502", "http500", "ok"], repeat=n):
+            for seq in itertools.product(["timeout", "http503", "http502j", "http500k", "ok"], repeat=n):
                 if "ok" in seq[:-1] or (n == 4 and ctx.quick and hash(seq) % 3):
                     continue
                 f += 1
